@@ -44,7 +44,7 @@ def work(seed):
         cex = "no-failing-input-found" not in pr.stdout if verdict == "violation" else None
         # what the deductive part alone said: a named obligation of a function under contract failed /
         # it gave no verdict (lost anchor, unsupported construct, ...) / it accepted the changed code
-        lines = pr.stdout.splitlines()
+        lines = (pr.stdout + "\n" + pr.stderr).splitlines()
         ded = [l for l in lines if l.startswith("FAILED OBLIGATION: ") and not l.startswith("FAILED OBLIGATION: bounded check")]
         if ded:
             deductive = "failed-obligation"
